@@ -497,18 +497,23 @@ func TestVerifC14(t *testing.T) {
 		type producer struct {
 			name string
 			f    func(a, b []byte) (*SM2Point, error)
+			want func(a, b *big.Int) ref.Pt
 		}
+		wBase := func(a, b *big.Int) ref.Pt { return ref.BaseMulFast(a) }
+		wVarP := func(a, b *big.Int) ref.Pt { return Pm.Mul(a) }
+		wMixP := func(a, b *big.Int) ref.Pt { return ref.BaseMulFast(a).Add(Pm.Mul(b)) }
+		wMixG := func(a, b *big.Int) ref.Pt { return ref.BaseMulFast(new(big.Int).Add(a, b)) }
 		prods := []producer{
-			{"ScalarBaseMult", func(a, b []byte) (*SM2Point, error) { return ScalarBaseMult(a) }},
-			{"scheme-5-3-17", func(a, b []byte) (*SM2Point, error) { return scalarBaseMult_SkipBitExtraction_5_3_17(a) }},
-			{"scheme-4-2-32", func(a, b []byte) (*SM2Point, error) { return scalarBaseMult_SkipBitExtraction_4_2_32(a) }},
-			{"scheme-7-3-12", func(a, b []byte) (*SM2Point, error) { return scalarBaseMult_SkipBitExtraction_7_3_12(a) }},
-			{"ScalarMult(P)", func(a, b []byte) (*SM2Point, error) { return ScalarMult(fromRef(Pm, bi(1)), a) }},
-			{"ScalarMult(G)", func(a, b []byte) (*SM2Point, error) { return ScalarMult(NewSM2Generator(), a) }},
-			{"ScalarMixedMult(g,P,s)", func(a, b []byte) (*SM2Point, error) { return ScalarMixedMult_Unsafe(a, fromRef(Pm, bi(1)), b) }},
-			{"ScalarMixedMult(g,G,s)", func(a, b []byte) (*SM2Point, error) { return ScalarMixedMult_Unsafe(a, NewSM2Generator(), b) }},
-			{"NewSM2Generator", func(a, b []byte) (*SM2Point, error) { return NewSM2Generator(), nil }},
-			{"NewSM2Point", func(a, b []byte) (*SM2Point, error) { return NewSM2Point(), nil }},
+			{"ScalarBaseMult", func(a, b []byte) (*SM2Point, error) { return ScalarBaseMult(a) }, wBase},
+			{"scheme-5-3-17", func(a, b []byte) (*SM2Point, error) { return scalarBaseMult_SkipBitExtraction_5_3_17(a) }, wBase},
+			{"scheme-4-2-32", func(a, b []byte) (*SM2Point, error) { return scalarBaseMult_SkipBitExtraction_4_2_32(a) }, wBase},
+			{"scheme-7-3-12", func(a, b []byte) (*SM2Point, error) { return scalarBaseMult_SkipBitExtraction_7_3_12(a) }, wBase},
+			{"ScalarMult(P)", func(a, b []byte) (*SM2Point, error) { return ScalarMult(fromRef(Pm, bi(1)), a) }, wVarP},
+			{"ScalarMult(G)", func(a, b []byte) (*SM2Point, error) { return ScalarMult(NewSM2Generator(), a) }, wBase},
+			{"ScalarMixedMult(g,P,s)", func(a, b []byte) (*SM2Point, error) { return ScalarMixedMult_Unsafe(a, fromRef(Pm, bi(1)), b) }, wMixP},
+			{"ScalarMixedMult(g,G,s)", func(a, b []byte) (*SM2Point, error) { return ScalarMixedMult_Unsafe(a, NewSM2Generator(), b) }, wMixG},
+			{"NewSM2Generator", func(a, b []byte) (*SM2Point, error) { return NewSM2Generator(), nil }, func(a, b *big.Int) ref.Pt { return ref.G() }},
+			{"NewSM2Point", func(a, b []byte) (*SM2Point, error) { return NewSM2Point(), nil }, func(a, b *big.Int) ref.Pt { return ref.Inf() }},
 		}
 		nOK := 0
 	outer:
@@ -527,6 +532,28 @@ func TestVerifC14(t *testing.T) {
 						continue
 					}
 					hist := []string{fmt.Sprintf("%s(%x.., %x..)", pr.name, a[28:], b[28:])}
+					// RESULTS ARE INPUTS: whatever comes back (the point at infinity in particular) is fed into the other
+					// operations and must behave as the group element it stands for
+					{
+						wv := pr.want(ref.Int(a), ref.Int(b))
+						Qm := ref.BaseMulFast(randScalarI(lr))
+						kk := ref.B32(randScalarI(lr))
+						s1, _ := toRef(NewSM2Point().Add(fromRef(Qm, randScalarI(lr)), ret))
+						s2, _ := toRef(NewSM2Point().Add(ret, fromRef(Qm, bi(1))))
+						g3, e3 := ScalarMixedMult_Unsafe(kk, ret, kk)
+						g4, e4 := ScalarMult(ret, kk)
+						okv := e3 == nil && e4 == nil
+						if okv {
+							v0, _ := toRef(ret)
+							v3, _ := toRef(g3)
+							v4, _ := toRef(g4)
+							okv = v0.Eq(wv) && s1.Eq(Qm.Add(wv)) && s2.Eq(Qm.Add(wv)) && v3.Eq(ref.BaseMulFast(ref.Int(kk)).Add(wv.Mul(ref.Int(kk)))) && v4.Eq(wv.Mul(ref.Int(kk)))
+						}
+						if !okv {
+							r.Violation("returned-point-misbehaves-as-an-operand:"+pr.name, hk.D{"history": hist, "value_by_model": ptHex(wv), "infinity": wv.Inf})
+							break outer
+						}
+					}
 					switch (ai + bi2) % 5 {
 					case 0:
 						ret.Double(ret)
